@@ -648,6 +648,216 @@ fn rand_first_field(rng: &mut Rng, q: bool) -> Vec<u8> {
     }
 }
 
+
+// ------------------------------------------------------------------------------------- dictionary (seed C13-6)
+//
+// Keywords and near-keywords of BED / UCSC / GFF / GTF / VCF-like files and of typed readers (numbers, booleans,
+// missing-value spellings).  Random names never hit a word a reader might treat specially (a header keyword tested
+// by prefix, a placeholder, a number spelling); the dictionary puts each of them into the text columns as a whole
+// field, as the beginning of a field and as its end.  No entry starts with `#` (that is the comment domain boundary).
+const DICT: &[&str] = &[
+    // UCSC header lines and their settings
+    "track", "browser", "track name=pairedReads", "browser position chr7:127471196-127495720", "browser hide all",
+    "track type=bedGraph", "name", "description", "visibility", "itemRgb", "useScore", "type", "bedGraph", "wiggle_0",
+    "variableStep", "fixedStep", "position", "hide", "pack", "dense", "full", "priority", "db",
+    // BED column names, usual reference names
+    "chrom", "chromStart", "chromEnd", "score", "strand", "thickStart", "thickEnd", "blockCount", "blockSizes",
+    "blockStarts", "chr", "chr1", "chrX", "chrM", "chrUn", "chrUn_gl000220", "1", "X", "MT", "scaffold_1", "contig", "*",
+    // GFF / GTF directives (without the leading ##), column names, attribute keys, feature types
+    "gff-version", "gff-version 3", "sequence-region", "sequence-region chr1 1 100", "FASTA", ">chr1", "feature-ontology",
+    "species", "genome-build", "seqid", "seqname", "source", "feature", "start", "end", "phase", "frame", "attributes",
+    "attribute", "group", "ID", "Name", "Alias", "Parent", "Target", "Gap", "Derives_from", "Note", "Dbxref",
+    "Ontology_term", "Is_circular", "gene_id", "transcript_id", "exon_number", "gene_name", "gene_biotype", "gene",
+    "mRNA", "exon", "CDS", "transcript", "region", "start_codon", "stop_codon", "five_prime_UTR",
+    // VCF / SAM-like
+    "fileformat=VCFv4.2", "CHROM", "POS", "REF", "ALT", "QUAL", "FILTER", "INFO", "FORMAT", "PASS", "@HD", "@SQ", "SN:chr1",
+    // placeholders, missing values, numbers and booleans as text
+    ".", "..", "+", "-", "?", "+-", "NA", "N/A", "na", "nan", "NaN", "inf", "-inf", "Infinity", "null", "NULL", "None",
+    "nil", "none", "true", "false", "TRUE", "True", "yes", "no", "0", "-0", "00", "007", "+5", "-1", "0x1", "0x1f", "1e3",
+    "1E3", "1.0", "1.5", ".5", "5.", "1_000", "1,000", "18446744073709551615", "18446744073709551616", "0b1", "0o7",
+    // words of line-oriented formats in general
+    "header", "comment", "end", "END", "EOF", "eof", "REM", "//", "--", "!", "%", ">", "@", "=", "==", "", " ",
+];
+const DICT_SUFFIX: &[&str] = &["_0012", "A", "ing", "ing-contig", "1", ".1", "_", "s", "2", " x", "=x", ":1-2", "-", "."];
+const DICT_PREFIX: &[&str] = &["my_", "x", "_", "no", "1", ".", "un", "chr", "-", " "];
+
+fn cat(a: &[u8], b: &[u8]) -> Vec<u8> {
+    let mut v = a.to_vec();
+    v.extend_from_slice(b);
+    v
+}
+
+/// the dictionary word `w` in variant `v`: whole, as a prefix (with a suffix), as a suffix, case changed, two words
+fn dict_variant(w: &str, v: usize, i: usize) -> Vec<u8> {
+    let b = w.as_bytes();
+    match v % 6 {
+        0 => b.to_vec(),
+        1 => cat(b, DICT_SUFFIX[i % DICT_SUFFIX.len()].as_bytes()),
+        2 => cat(DICT_PREFIX[i % DICT_PREFIX.len()].as_bytes(), b),
+        3 => {
+            if i % 2 == 0 {
+                w.to_ascii_uppercase().into_bytes()
+            } else {
+                let mut c = w.to_ascii_lowercase().into_bytes();
+                if let Some(f) = c.first_mut() {
+                    *f = f.to_ascii_uppercase();
+                }
+                c
+            }
+        }
+        4 => cat(&cat(b, [" ", "=", "_", ":", "-", "."][i % 6].as_bytes()), DICT[(i * 7 + 3) % DICT.len()].as_bytes()),
+        _ => cat(b, b),
+    }
+}
+
+fn dict_word(rng: &mut Rng) -> Vec<u8> {
+    let w = *rng.pick(DICT);
+    let v = match rng.below(10) {
+        0..=3 => 0,
+        4 | 5 => 1,
+        6 => 2,
+        7 => 3,
+        8 => 4,
+        _ => 5,
+    };
+    dict_variant(w, v, rng.below(1 << 16))
+}
+
+/// a dictionary word as first column: never one that starts with `#` (none does), kept as it is otherwise
+fn dict_first(rng: &mut Rng) -> Vec<u8> {
+    loop {
+        let f = dict_word(rng);
+        if f.first() != Some(&b'#') {
+            return f;
+        }
+    }
+}
+
+/// a dictionary word cut down to the attribute domain of the dialect (delimiters and TAB removed, no quote
+/// character at the ends, keys do not start with a blank); `x` when nothing is left
+fn dict_attr(word: Vec<u8>, delim: u8, term: u8, vdelim: u8, is_key: bool) -> Vec<u8> {
+    let mut t: Vec<u8> = word.into_iter().filter(|&c| c != b'\t' && c != delim && c != term && (is_key || c != vdelim)).collect();
+    while matches!(t.first(), Some(b'\'') | Some(b'"')) || (is_key && t.first() == Some(&b' ')) {
+        t.remove(0);
+    }
+    while matches!(t.last(), Some(b'\'') | Some(b'"')) {
+        t.pop();
+    }
+    if attr_ok(&t, delim, term, vdelim, is_key) {
+        t
+    } else {
+        b"x".to_vec()
+    }
+}
+
+/// GFF score column: the spellings the property leaves open as numbers (`+5`, `0x1f`, leading zeros — accepted by some
+/// integer parsers, `Tsv.readU64` = unspec) have no determined `score()` view, so they are not used there
+fn score_unspecified(b: &[u8]) -> bool {
+    let digits = |x: &[u8]| !x.is_empty() && x.iter().all(|c| c.is_ascii_digit());
+    (digits(b) && b.len() > 1 && b[0] == b'0') || (b.first() == Some(&b'+') && digits(&b[1..])) || b.starts_with(b"0x")
+}
+
+/// dictionary mode of a BED file: every other chrom and a third of the optional columns become dictionary words
+fn dictify_bed(rng: &mut Rng, recs: &mut [BedRec]) {
+    for r in recs.iter_mut() {
+        if rng.chance(1, 2) {
+            r.chrom = dict_first(rng);
+        }
+        for a in r.aux.iter_mut() {
+            if rng.chance(1, 3) {
+                *a = dict_word(rng);
+            }
+        }
+    }
+}
+
+/// dictionary mode of a GFF file: seqname / source / type, a share of score and strand, attribute keys and values
+fn dictify_gff(rng: &mut Rng, recs: &mut [GffRec], delim: u8, term: u8, vdelim: u8, multi: bool) {
+    for r in recs.iter_mut() {
+        if rng.chance(1, 2) {
+            r.seq = dict_first(rng);
+        }
+        if rng.chance(1, 2) {
+            r.src = dict_word(rng);
+        }
+        if rng.chance(1, 2) {
+            r.typ = dict_word(rng);
+        }
+        if rng.chance(1, 4) {
+            let w = dict_word(rng);
+            if !score_unspecified(&w) {
+                r.score = w;
+            }
+        }
+        if rng.chance(1, 6) {
+            r.strand = dict_word(rng);
+        }
+        for j in 0..r.attrs.len() {
+            if rng.chance(1, 2) {
+                let k = dict_attr(dict_word(rng), delim, term, vdelim, true);
+                // single-valued files keep their keys distinct
+                if multi || !r.attrs.iter().any(|(k2, _)| *k2 == k) {
+                    r.attrs[j].0 = k;
+                }
+            }
+            for v in r.attrs[j].1.iter_mut() {
+                if rng.chance(1, 2) {
+                    *v = dict_attr(dict_word(rng), delim, term, vdelim, false);
+                }
+            }
+        }
+    }
+}
+
+/// systematic part: for every dictionary word one BED file and one GFF file whose first columns are the word as a
+/// whole, with a suffix and with a prefix (three records between two ordinary ones), the other text columns taken
+/// from the neighbouring entries; no fault, no comment lines (a lost or changed record is the only possible failure)
+fn gen_dict_files(out: &mut Vec<String>) {
+    let n = DICT.len();
+    for (i, w) in DICT.iter().enumerate() {
+        let firsts = [dict_variant(w, 0, i), dict_variant(w, 1, i), dict_variant(w, 2, i), dict_variant(w, 3 + i % 3, i)];
+        let nb = |d: usize, v: usize| dict_variant(DICT[(i + d) % n], v, i + d);
+        // BED: k cycles through 0, 1, 3, 6
+        let k = [0usize, 1, 3, 6][i % 4];
+        let mut recs = vec![BedRec { chrom: b"chr1".to_vec(), start: 5, end: 5000, aux: (0..k).map(|j| nb(j + 1, 0)).collect() }];
+        for (j, f) in firsts.iter().enumerate() {
+            if f.first() == Some(&b'#') {
+                continue;
+            }
+            recs.push(BedRec { chrom: f.clone(), start: 10 + j as u64, end: 20 + i as u64, aux: (0..k).map(|c| nb(c + j, (c + j) % 6)).collect() });
+        }
+        recs.push(BedRec { chrom: b"chr2".to_vec(), start: 3, end: 5005, aux: (0..k).map(|j| nb(j + 2, 1)).collect() });
+        out.push(format!("bed {} - none", recs.iter().map(fmt_bed).collect::<Vec<_>>().join("/")));
+        // GFF: dialect and style cycle
+        let d = ["gff3", "gff2", "gtf2"][i % 3];
+        let (_, delim, term, vdelim) = dialect(d).unwrap();
+        let mut grecs = vec![];
+        for (j, f) in firsts.iter().enumerate() {
+            if f.first() == Some(&b'#') {
+                continue;
+            }
+            let mut attrs = vec![(dict_attr(nb(j, 0), delim, term, vdelim, true), vec![dict_attr(nb(j + 1, j), delim, term, vdelim, false)])];
+            let k2 = dict_attr(nb(j + 5, 1), delim, term, vdelim, true);
+            if k2 != attrs[0].0 {
+                attrs.push((k2, vec![dict_attr(nb(j + 6, 2), delim, term, vdelim, false)]));
+            }
+            grecs.push(GffRec {
+                seq: f.clone(),
+                src: nb(j + 2, j % 3),
+                typ: nb(j + 3, (j + 1) % 3),
+                start: 1 + j as u64,
+                end: 100 + i as u64,
+                score: if j == 1 && !score_unspecified(&nb(j + 4, 0)) { nb(j + 4, 0) } else { b".".to_vec() },
+                strand: [&b"+"[..], b"-", b".", b"?"][j % 4].to_vec(),
+                phase: [None, Some(0), Some(1), Some(2)][(i + j) % 4],
+                attrs,
+            });
+        }
+        let style = ["plain", "spaced", "quoted", "csvq"][i % 4];
+        out.push(format!("gff {} {} - none {}", d, grecs.iter().map(fmt_gff).collect::<Vec<_>>().join("/"), style));
+    }
+}
+
 fn rand_u64(rng: &mut Rng) -> u64 {
     match rng.below(10) {
         0 => 0,
@@ -820,6 +1030,11 @@ fn gen_bed(rng: &mut Rng, every_cut: bool) -> String {
                 .collect(),
         })
         .collect();
+    // a quarter of the files in dictionary mode (independent of the csv-sensitive mode)
+    let mut recs = recs;
+    if rng.chance(1, 4) {
+        dictify_bed(rng, &mut recs);
+    }
     let written = bed_write(&recs).ok();
     let wlen = written.as_ref().map(|w| w.len()).unwrap_or(0);
     let fault = if every_cut {
@@ -908,6 +1123,11 @@ fn gen_gff(rng: &mut Rng, every_cut: bool) -> String {
             }
         })
         .collect();
+    // a quarter of the files in dictionary mode (independent of the csv-sensitive mode)
+    let mut recs = recs;
+    if rng.chance(1, 4) {
+        dictify_gff(rng, &mut recs, delim, term, vdelim, multi);
+    }
     let written = gff_write_real(&gff_build(&recs), t).ok();
     let wlen = written.as_ref().map(|w| w.len()).unwrap_or(0);
     let fault = if every_cut {
@@ -923,6 +1143,7 @@ fn gen_gff(rng: &mut Rng, every_cut: bool) -> String {
 pub fn gen(tier: &str, rng: &mut Rng, out: &mut Vec<String>) {
     let thorough = tier == "thorough";
     let n = if thorough { 15_000 } else { 750 };
+    gen_dict_files(out);
     for _ in 0..n {
         out.push(gen_bed(rng, false));
         out.push(gen_gff(rng, false));
